@@ -83,6 +83,28 @@ func ruleClosureNoTolerance(c *eng.Ctx) {
 				c.OK(rule, construct, call.Pos(), "not-found tolerated on a "+class+" read")
 				return true
 			}
+			// translating the not-found error into another error is not a tolerance: the branch
+			// taken when the test holds ends in a return of an error constructor
+			translated := false
+			ast.Inspect(fi.Decl.Body, func(x ast.Node) bool {
+				is, ok := x.(*ast.IfStmt)
+				if !ok || !(is.Cond.Pos() <= call.Pos() && call.End() <= is.Cond.End()) || len(is.Body.List) == 0 {
+					return true
+				}
+				if ue, ok := ast.Unparen(is.Cond).(*ast.UnaryExpr); ok && ue.Op.String() == "!" {
+					return true // `if !errors.Is(…)`: the body is the other branch
+				}
+				if r, ok := is.Body.List[len(is.Body.List)-1].(*ast.ReturnStmt); ok && len(r.Results) > 0 {
+					if rc, ok := ast.Unparen(r.Results[len(r.Results)-1]).(*ast.CallExpr); ok && alwaysError(c.P, info, rc, 2) {
+						translated = true
+					}
+				}
+				return true
+			})
+			if translated {
+				c.OK(rule, construct, call.Pos(), "the missing block is reported with a more specific error")
+				return true
+			}
 			if why, ok := closureToleranceExceptions[construct]; ok {
 				c.OK(rule, construct, call.Pos(), "tabled exception: "+why)
 				return true
